@@ -90,3 +90,15 @@ pub open spec fn is_member(list: Seq<crate::shim::flat::Addr>, a: crate::shim::f
 pub open spec fn str_member(list: Seq<String>, a: Seq<char>) -> bool {
     exists|i: int| 0 <= i < list.len() && (#[trigger] list[i])@ == a
 }
+
+/// strict mode: the arithmetic of calculate_fee / the reject fee stays inside rust_decimal's range (A-RANGE)
+pub open spec fn fee_step_live(b: BidOrderV3, g: int) -> bool {
+    b.fee is Some ==> {
+        let f = b.fee->0.amount.v as int; let q = b.quote.amount.v as int; let n = rem_quote(b) - g;
+        &&& rem_quote(b) >= g && rem_fee(b) >= 0
+        &&& q != 0 && q < LIMIT96() && n < LIMIT96() && f < LIMIT96()
+        &&& fits(ddiv(of_int(n), of_int(q)))
+        &&& fits(dmul(ddiv(of_int(n), of_int(q)), of_int(f)))
+        &&& rem_fee(b) >= prorata(f, n, q)
+    }
+}
